@@ -566,7 +566,9 @@ class FilesParagraph(deb822.RestrictedWrapper):
         pat = self.files_pattern()
         if pat is None:
             return False
-        return pat.match(filename) is not None
+        # Only the last alternative of the pattern is anchored (by \Z), so
+        # insist on the whole name being matched.
+        return pat.fullmatch(filename) is not None
 
     files = deb822.RestrictedField(
         'Files', from_str=_SpaceSeparated.from_str,
